@@ -5,13 +5,17 @@ machine (Spec/Mem.lean): every written byte carries (tensor id, delta); every re
 its expected tag. Tensor identities and box origins come from Vela's high-level commands (side
 information); addresses, tiles, strides and extents come from the decoded registers only."""
 import common
+import lutstate_lib
 import stream_checks
 from common import Check, main_wrapper
 
 
 def main():
     ck = Check("C03", "translation_validation")
-    ck.lean_stage(["VelaVerif.Props.C03"])
+    ck.lean_stage(["VelaVerif.Props.C03", "VelaVerif.Props.C03LutState"])
+    # function level: the table residency pass of lut.py (real LUTState / optimize_high_level_cmd_stream on objects of the
+    # repo's own classes) against Model/LutState.lean, its streams judged by the byte-level Spec/LutWindow.lean
+    ls = lutstate_lib.run_all(ck)
     outs, lines, owners, answers = stream_checks.run(ck, "C03", 384, 7200,
                                                      ["cascade", "cascade_chain", "weights", "lut", "elementwise", "mixed", "pattern", "cpu", "pattern", "cascade_lut", "pattern:reshape_fork", "pattern"],
                                                      want=("stream", "inference"))
@@ -33,7 +37,7 @@ def main():
             rejected += 1
             metas = (o.get("op_meta") or [[]])[si] if si < len(o.get("op_meta") or []) else []
             msg = ans["tagged_msgs"][0]
-            key = stream_checks.classify_tagged(msg, metas)
+            key = stream_checks.classify_source(o, msg) or stream_checks.classify_tagged(msg, metas)
             ck.violation(f"read of undefined/stale/foreign bytes: {msg} (network {o['idx']} {o['profile']} {o.get('opts')})",
                          stream_checks.replay_obj(o, si, ans, line), key=key)
     # whole-inference execution: CPU operators and every Ethos-U stream of the output graph on one tagged memory
@@ -58,20 +62,26 @@ def main():
             rejected += 1
             ck.violation(f"whole-inference execution: {pa['tagged_msgs'][0]} (network {o['idx']} {o['profile']} {o.get('opts')})",
                          {"profile": o["profile"], "seed": o["seed"], "index": o["idx"], "opts": o.get("opts"), "network": o.get("desc"),
-                          "verdict": a[:1500], "request_head": o["inference_line"][:400]})
+                          "verdict": a[:1500], "request_head": o["inference_line"][:400]},
+                         key=stream_checks.classify_source(o, pa["tagged_msgs"][0]))
     for (o, si), ans in list(zip(owners, answers))[:3]:
         ck.sample({"network": o["desc"], "opts": o["opts"], "features": o.get("features"), "verdict": ans["raw"][:160]})
     ck.finish({
         "programs": programs,
         "disagreements_checked": rejected,
-        "evaluations": len(outs) + programs,
-        "distinct_nontrivial": len(nontrivial),
+        "evaluations": len(outs) + programs + ls["lutstate_cases"] + ls["lutstate_method_calls"],
+        "distinct_nontrivial": len(nontrivial) + ls["lutstate_nontrivial"],
+        "function_level": ls,
         "rule": "program = one emitted command stream; non-trivial when it has a cascade, buffered weights, a LUT, a wrapped "
-                "rolling buffer or a multi-stripe operator; distinct by (profile, index, stream, options)",
+                "rolling buffer or a multi-stripe operator; distinct by (profile, index, stream, options). Function level "
+                "(lutstate): case = one abstract high-level command stream run through the real lut.optimize_high_level_cmd_stream; "
+                "non-trivial when the pass dropped a table DMA or evicted a table; distinct by (accelerator, tables, passes, commands)",
         "exhaustive": False,
     }, assumptions=["sequential execution in program order (ordering between queues is C04's subject)",
                     "tensor identities and box origins are taken from Vela's high-level command stream",
-                    "element-granular footprints; implicit IFM extent from OFM extent, kernel, stride and pads"])
+                    "element-granular footprints; implicit IFM extent from OFM extent, kernel, stride and pads",
+                    "lutstate: tables whose values compare equal under np.array_equal and have the same storage size are the same bytes; "
+                    "a kernel without table lookup destroys the table window exactly on the 16-bank configurations (hand-written)"])
 
 
 main_wrapper(main)
